@@ -124,11 +124,11 @@ Proof.
   - cbn [List.last]. exact IH.
 Qed.
 
-Theorem C05_main_loop_history_tracks_the_position : forall extra u line input,
+Theorem C05_main_loop_history_tracks_the_position : forall extra dl u line input,
   history_tracks_position u ->
-  let '(u', _, _, _, _) := uci_step extra u line input in history_tracks_position u'.
+  let '(u', _, _, _, _) := uci_step extra dl u line input in history_tracks_position u'.
 Proof.
-  intros extra u line input HT.
+  intros extra dl u line input HT.
   set (cmd := lower_str (first_token (trim line))).
   destruct (String.eqb_spec cmd "position") as [EP|NP].
   { unfold uci_step. cbv zeta. destruct (String.eqb (trim line) ""); [exact HT|]. fold cmd. rewrite EP. cbn [String.eqb Ascii.eqb Bool.eqb orb].
@@ -148,8 +148,8 @@ Proof.
   { unfold uci_step. cbv zeta. destruct (String.eqb (trim line) ""); [exact HT|]. fold cmd. rewrite EU. cbn [String.eqb Ascii.eqb Bool.eqb orb]. left. reflexivity. }
   destruct (String.eqb_spec cmd "cleartt") as [EC|NC].
   { unfold uci_step. cbv zeta. destruct (String.eqb (trim line) ""); [exact HT|]. fold cmd. rewrite EC. cbn [String.eqb Ascii.eqb Bool.eqb orb]. left. reflexivity. }
-  pose proof (C17_inspecting_commands_keep_position_and_history extra u line input NP NU NC NM) as K.
-  destruct (uci_step extra u line input) as [[[[u' o] rq] i'] st]. destruct K as (K1 & K2).
+  pose proof (C17_inspecting_commands_keep_position_and_history extra dl u line input NP NU NC NM) as K.
+  destruct (uci_step extra dl u line input) as [[[[u' o] rq] i'] st]. destruct K as (K1 & K2).
   unfold history_tracks_position. rewrite K1, K2. exact HT.
 Qed.
 
@@ -157,8 +157,8 @@ Theorem C05_every_session_state_tracks_its_position : forall extra u, session_st
   history_tracks_position u /\ hash (u_game u) = make_zobrist_hash (u_game u).
 Proof.
   intros extra u H. split.
-  - induction H as [|u line input u' outs rq input' st _ IH OK E]; [left; reflexivity|].
-    pose proof (C05_main_loop_history_tracks_the_position extra u line input IH) as K. rewrite E in K. exact K.
+  - induction H as [|dl u line input u' outs rq input' st _ IH OK E]; [left; reflexivity|].
+    pose proof (C05_main_loop_history_tracks_the_position extra dl u line input IH) as K. rewrite E in K. exact K.
   - destruct (C03_every_session_state_holds_a_legal_position extra u H) as (_ & _ & _ & _ & K). exact K.
 Qed.
 
